@@ -1,6 +1,8 @@
-"""C16 - tear-sheet PnL, win rate and profit factor match the closed positions (spec/Stats.tla)."""
+"""C16 - tear-sheet PnL, win rate and profit factor match the closed positions (spec/Stats.tla);
+the ratio figures of the instrument sheet (rate of return, Sharpe, Sortino, Calmar) included."""
 import json
 import re
+import threading
 
 import vlib
 from props import stats_common as sc
@@ -9,9 +11,12 @@ MODULE = "Stats"
 META = {
     "level_text": "reference-model enumeration + replay",
     "level_note": "TLC checks the batch definitions of the tear sheet (win-rate / profit-factor conventions, order-freedom, "
-                  "per-key isolation, accumulators+calculators = batch) on every bounded history and emits every history "
+                  "per-key isolation, accumulators+calculators = batch; for the ratio figures the convention tables of "
+                  "Sharpe / Sortino / Calmar at zero risk, the value laws in squared form, the scale law, running = batch) "
+                  "on every bounded history and emits every history "
                   "with the exact summary after every event; they are replayed into TearSheetGenerator, "
-                  "TradingSummaryGenerator and, as fills, into a real Engine whose trading summary is generated. Trusted: TLC, spec/Rational.tla, the projection functions in harness/src/stats_driver.rs (bins c16/c17/c18), the assumptions listed in the evidence file.",
+                  "TradingSummaryGenerator and, as fills, into a real Engine whose trading summary is generated, for the "
+                  "risk-free return and the interval (Daily, Annual252, Annual365, custom TimeDelta) the behaviour names. Trusted: TLC, spec/Rational.tla, the projection functions in harness/src/stats_driver.rs (bins c16/c17/c18), the assumptions listed in the evidence file.",
     "technique": "TLC exhaustive + simulation (Pattern B: exact rationals replayed into the implementation)",
 }
 ASSUMPTIONS = [
@@ -20,8 +25,24 @@ ASSUMPTIONS = [
     "profit factor conventions as documented on ProfitFactor::calculate: none when gross profit and gross loss are both "
     "zero, Decimal::MAX with profits and no losses, Decimal::MIN with losses and no profits",
     "win rate / profit factor compared up to decimal rounding (1e-18 relative); PnL exactly representable",
-    "instrument sheets are compared on pnl, win_rate, profit_factor; asset sheets on balance_end (drawdown fields: C18; "
-    "Sharpe/Sortino/Calmar/rate of return: out of scope)",
+    "instrument sheets are compared on pnl, win_rate, profit_factor, pnl_return, sharpe_ratio, sortino_ratio, calmar_ratio; "
+    "asset sheets (which report no ratio figure) on balance_end (drawdown fields: C18)",
+    "ratio figures: TLC gives every figure in squared, factored form <<k, sign, sq, fac>> (value = sign * sqrt(sq * fac), sq and "
+    "fac exact fractions, fac = target interval / trading period in seconds); the harness compares the Decimal with "
+    "sign * sqrt(sq * fac) within 1e-12 relative (the code itself takes decimal square roots: rust_decimal's sqrt is "
+    "approximate; the harness uses its own Newton iteration, checked by squaring to 1e-20); the rate of return is linear and "
+    "compared to 1e-18 relative; sentinels Decimal::MAX / Decimal::MIN exactly",
+    "ratio figures, left open by the specification (header of the section 'ratio figures' of spec/Stats.tla): a sentinel "
+    "scaled DOWN may be the sentinel or any value of its sign from the product upwards; zero risk with excess exactly zero in "
+    "a history of three or more positions (decimal rounding of the running mean decides); Calmar when the PnL curve "
+    "declines from a running maximum that is not positive (C18 defines drawdowns for positive peaks only)",
+    "ratio figures: exit times are whole seconds, non-decreasing per instrument; the trading period runs from the start of the "
+    "instrument's session (TearSheetGenerator::init / reset, the engine state's time_engine_start) to its latest exit, at "
+    "least one second; risk-free returns are finite decimals (0, 1/10, -1/10, 1/20); returns of the behaviours with ratio "
+    "figures are finite decimals (costs 4, 5, 10, 20); wide behaviours (PnL up to 300, costs 3..25) carry no ratio figures "
+    "because their squares exceed TLC's 32-bit integers",
+    "summary mode: the risk-free return is the public field TradingSummaryGenerator.risk_free_return that init() sets; the "
+    "harness assigns it before generate()",
     "engine mode: consecutive closed positions of one instrument are chained, where the numbers allow it exactly, by CROSSING "
     "fills (the closing fill is over-sized and opens the next position on the other side: long->short->long..); the position "
     "closed by such a fill belongs to the instrument's history like any other",
@@ -35,6 +56,13 @@ MODES = ("direct", "summary", "engine")
 
 
 def signature(r):
+    ra = r.get("ratio")
+    if ra:
+        # a sentinel expected or reported and the kinds differ: which became which; else the figure and its case
+        base, ek, gk = ra["field"].split(".")[0], ra["expected_kind"], ra["got_kind"]
+        if ek != gk and (ek in ("MAX", "MIN") or gk in ("MAX", "MIN", "panic")):
+            return "Generate:%s:%s->%s" % (base, ek, gk)
+        return "Generate:%s:%s" % (ra["field"], ra["case"].split(":")[0])
     m = re.search(r"expected (.+?), got (.+)$", r["error"])
     if not m:
         return "%s" % sc.field_of(r["error"]).replace(" ", "_")
@@ -45,7 +73,9 @@ def history(scn, upto):
     h = {}
     for e in scn["evs"][:upto + 1]:
         if e["a"] == "AddClosed":
-            h.setdefault(e["k"], []).append("%+d/%d" % (e["x"], e["y"]))
+            h.setdefault(e["k"], []).append("%+d/%d" % (e["x"], e["y"]) + ("@%ds" % e["t"] if "t" in e else ""))
+        elif e["a"] == "Reset":
+            h.setdefault(e["k"], []).append("reset()")
         elif e["a"] == "AddBalance":
             h.setdefault(e["k"], []).append(e["x"])
     return h
@@ -60,9 +90,9 @@ def judge(ctx, results, scns, label, counts):
         sig = signature(r)
         counts.setdefault(sig, {}).setdefault(r.get("mode"), 0)
         counts[sig][r.get("mode")] += 1
-        desc = "histories (pnl/cost per closed position, balances) %s: after event #%d %s the generated summary has %s; summary before: %s [mode %s, scale 1e%s, %s]" % (
+        desc = "histories (pnl/cost@exit time per closed position, balances) %s: after event #%d %s the generated summary has %s; summary before: %s [mode %s, scale 1e%s, %s]" % (
             json.dumps(history(scn, r["step"])), r["step"] + 1, json.dumps(r["event"]), r["error"],
-            json.dumps(r["pre"].get("instruments") if isinstance(r["pre"], dict) else r["pre"]),
+            json.dumps(r["pre"].get("instruments", r["pre"].get("ratio_figures_now")) if isinstance(r["pre"], dict) else r["pre"]),
             r.get("mode"), r.get("variant", {}).get("e10"), label)
         ctx.violation(sig, desc, sc.replay_object(scn, r, ctx.seed, mode=r.get("mode")))
 
@@ -73,12 +103,74 @@ def corrupt(scn):
     e[k]["pnl"]["n"] += e[k]["pnl"]["d"]            # PnL + 1
 
 
+def corrupt_ratio(scn):
+    """the last Sharpe figure with a number: its squared value doubled"""
+    for e in reversed(scn["evs"]):
+        for k in sorted(e["ratios"]["instruments"]):
+            f = e["ratios"]["instruments"][k]["sharpe_ratio"]
+            if f[0] == "num" and f[2] != 0:
+                f[2] *= 2
+                return
+    raise vlib.ToolError("binding self-test: no numeric Sharpe figure in the chosen scenario")
+
+
+# every row of the convention tables (Stats.tla, CaseOfBase) and every scaling direction of every kind of figure
+TABLE_ROWS = (["sharpe_ratio:zero_std_dev:%s" % x for x in ("pos", "neg", "zero")] + ["sharpe_ratio:num"]
+              + ["sortino_ratio:zero_downside_dev:%s" % x for x in ("pos", "neg", "zero")] + ["sortino_ratio:num"]
+              + ["calmar_ratio:zero_drawdown:%s" % x for x in ("pos", "neg", "zero")] + ["calmar_ratio:num", "calmar_ratio:undefined_drawdown"]
+              + ["%s:%s" % (k, d) for k in ("num", "MAX", "MIN", "any") for d in ("up", "same", "down") if (k, d) != ("any", "same")]
+              + ["zero_excess:exact", "zero_excess:open"])
+
+
+def table_coverage(scns):
+    """No vacuity: the rows of the convention tables met by the TLC-generated behaviours (the case tags are
+    computed by TLC from the specification)."""
+    seen = {}
+    for scn in scns:
+        for e in scn["evs"]:
+            r = e.get("ratios")
+            if not isinstance(r, dict):
+                continue
+            for sheet in r["instruments"].values():
+                for f in ("sharpe_ratio", "sortino_ratio", "calmar_ratio"):
+                    fig = sheet[f]
+                    for key in ("%s:%s" % (f, fig[6]), "%s:%s" % (fig[0], sheet["scale"])):
+                        seen[key] = seen.get(key, 0) + 1
+                    if f != "sharpe_ratio" and fig[6].endswith(":zero"):
+                        key = "zero_excess:%s" % ("open" if fig[0] == "any" else "exact")
+                        seen[key] = seen.get(key, 0) + 1
+    return seen
+
+
 def check(ctx):
     ctx.assumptions += ASSUMPTIONS
     ctx.build("c16")
     # (-coverage makes TLC several times slower here: vacuity is checked on the small configuration)
-    ctx.tlc_actions("MC_" + MODULE, "MC_Stats_C16_small.cfg", ["AddClosedAny", "AddBalanceAny", "GenerateAny", "PersistAny"])
-    ctx.tlc_mc("MC_" + MODULE, "MC_Stats_C16.cfg" if ctx.quick else "MC_Stats_C16_thorough.cfg", timeout=2400, coverage=False)
+    # the model checking (action coverage of the small model; the two exhaustive models: sheets, ratio laws over
+    # the histories of one instrument) does not depend on the replays: it runs beside them (a failure is
+    # re-raised when the two are joined)
+    mc_error = []
+
+    def model_check():
+        try:
+            ctx.tlc_actions("MC_" + MODULE, "MC_Stats_C16_small.cfg", ["AddClosedAny", "AddBalanceAny", "GenerateAny", "PersistAny", "ResetAny"])
+            ctx.tlc_mc("MC_" + MODULE, "MC_Stats_C16.cfg" if ctx.quick else "MC_Stats_C16_thorough.cfg", timeout=2400, coverage=False)
+            ctx.tlc_mc("MC_" + MODULE, "MC_Stats_C16_ratios.cfg" if ctx.quick else "MC_Stats_C16_ratios_thorough.cfg", timeout=2400,
+                       coverage=False, workers=4 if ctx.quick else None)
+        except BaseException as e:      # noqa: B902 - re-raised in the main thread
+            mc_error.append(e)
+    mc = threading.Thread(target=model_check)
+    mc.start()
+    try:
+        extra = replays(ctx)
+    finally:
+        mc.join()
+    if mc_error:
+        raise mc_error[0]
+    return ctx.finish(extra=extra)
+
+
+def replays(ctx):
     gens = [("enumerated", "GenT_Stats_C16.cfg", None)]
     if not ctx.quick:
         gens.append(("enumerated-long", "GenT_Stats_C16_thorough.cfg", None))
@@ -86,11 +178,21 @@ def check(ctx):
     files = []
     for label, cfg, sim in gens:
         p, scns = ctx.tlc_gen("Gen_" + MODULE, cfg, label + ".ndjson", simulate=sim, timeout=1200)
+        if sim and len(scns) < 0.9 * sim[0]:
+            # (TLC ends a simulation at the first evaluation error, e.g. an integer overflow of the exact fractions)
+            raise vlib.ToolError("TLC simulation of %s ended early: %d of %d behaviours" % (cfg, len(scns), sim[0]))
         files.append((label, p, scns))
     ctx.sample({"kind": "TLC enumerated history with the exact summary after every event", "scenario": files[0][2][len(files[0][2]) // 2]})
     ctx.sample({"kind": "TLC simulated behaviour (closed positions, balances, Generate)", "scenario": files[-1][2][0]})
     sc.selftest_binding(ctx, "c16", files[0][2][0], corrupt, ".pnl", ("--mode", "direct"))
-    counts, arms = {}, {}
+    with_ratios = [s for s in files[0][2] if all(isinstance(e.get("ratios"), dict) for e in s["evs"])]
+    sc.selftest_binding(ctx, "c16", with_ratios[len(with_ratios) // 2], corrupt_ratio, "sharpe_ratio", ("--mode", "direct"))
+    rows = table_coverage(files[0][2])
+    missing = [r for r in TABLE_ROWS if not rows.get(r)]
+    if missing:
+        raise vlib.ToolError("vacuous run: rows of the ratio convention tables never met by the enumerated behaviours: %s" % missing)
+    ctx.cov["ratio_table_rows_in_enumerated_behaviours"] = rows
+    counts, arms, ratio = {}, {}, {}
     for mode in MODES:
         for label, p, scns in files:
             info, results = sc.run_replay(ctx, "c16", p, "%s_%s" % (label, mode), ("--mode", mode))
@@ -98,11 +200,19 @@ def check(ctx):
             ctx.cov["scenarios_replayed"] += len(scns)
             for k, v in info.get("arm_hits", {}).items():
                 arms[k] = arms.get(k, 0) + v
+            for k, v in info.get("ratio_figures", {}).items():
+                if isinstance(v, int):
+                    ratio[k] = ratio.get(k, 0) + v
+                elif k == "max_error_over_tolerance":
+                    ratio[k] = max(ratio.get(k, 0.0), float(v))
     # (runs cut short by a violation exercise fewer arms: vacuity is only judged on a clean run)
     if not ctx.violations and not all(arms.get(k) for k in ("win", "loss", "break_even", "balance", "generate_event", "keyed_by_name",
-                                                            "crossing_fill", "equal_exit_time", "late_reported_exit", "clock_update", "store_restore")):
+                                                            "crossing_fill", "equal_exit_time", "late_reported_exit", "clock_update", "store_restore",
+                                                            "reset", "sheets_with_ratio_figures")):
         raise vlib.ToolError("vacuous run: a kind of event was never replayed: %s" % arms)
-    return ctx.finish(extra={"arm_hits": arms, "violations_by_signature_and_mode": counts})
+    if not all(ratio.get(k) for k in ("compared", "left_open_by_the_spec", "sentinel_scaled_down", "rescaled_with_scale()")):
+        raise vlib.ToolError("vacuous run: the ratio figures were not all exercised: %s" % ratio)
+    return {"arm_hits": arms, "ratio_figures": ratio, "violations_by_signature_and_mode": counts}
 
 
 def replay(ctx, rp):
